@@ -155,6 +155,8 @@ def gen_mixtures(m, rng, job):
         leaves = [random_leaf(m.lib, rng, names) for _ in range(n)]
         o = {'op': 'scrub', 'leaves': leaves, 'shape': random_shape(rng, n), 'join_str': rng.random() < 0.3}
         x = rng.random()
+        if x > 0.9:
+            o['poison_first'] = rng.choice(['notacolor', 'neg'])
         if x < 0.05:
             o['selfref'] = True
         elif x < 0.1:
@@ -181,6 +183,8 @@ CLASSES = [
     ([{'k': 'fmt', 'v': 'UL_RED'}, {'k': 'str', 'v': 'ul_red'}, {'k': 'str', 'v': 'UL-RED'}], ['4', '58;5;9']),
     ([{'k': 'call', 'fn': 'ul_rgb', 'v': [1, 2, 3]}, {'k': 'str', 'v': 'ul_rgb(1,2,3)'}, {'k': 'str', 'v': 'ul_rgb(0x010203)'}], ['4', '58;2;1;2;3']),
     ([{'k': 'fmt', 'v': 'NO_BOLD_FAINT'}, {'k': 'str', 'v': 'no bold faint'}, {'k': 'int', 'v': 22}], ['22']),
+    ([{'k': 'str', 'v': 'bold;red'}, {'k': 'str', 'v': '1;31'}, {'k': 'list', 'v': [{'k': 'str', 'v': 'bold'}, {'k': 'fmt', 'v': 'FG_RED'}]},
+      {'k': 'list', 'v': [{'k': 'str', 'v': '1;31'}]}, {'k': 'tuple', 'v': [{'k': 'int', 'v': 1}, {'k': 'int', 'v': 31}]}], ['1', '31']),
 ]
 
 
@@ -205,9 +209,10 @@ def gen_spelled_history(m, rng, job):
         if rng.random() < 0.75:
             top = rng.random() < 0.7
             for r_, f in ((ra, fa), (rb, fb)):
-                run(m, {'op': 'apply', 'r': r_, 'sets': [f], 'S': S, 'start': a_, 'end': b_, 'top': top}, oplist)
+                run(m, {'op': 'apply', 'r': r_, 'sets': [f], 'S': S, 'start': a_, 'end': b_, 'top': top, 'tag': 'sp',
+                        'single': rng.random() < 0.5}, oplist)
         else:
             for r_, f in ((ra, fa), (rb, fb)):
-                run(m, {'op': 'remove', 'r': r_, 'sets': [f], 'S': S, 'start': a_, 'end': b_}, oplist)
+                run(m, {'op': 'remove', 'r': r_, 'sets': [f], 'S': S, 'start': a_, 'end': b_, 'tag': 'sp'}, oplist)
         run(m, {'op': 'twincheck', 'a': [ra], 'b': [rb], 'tag': 'spell'}, oplist)
     return oplist, {}
